@@ -1,7 +1,7 @@
 import PeptVerif.Generated.Unimod
 import PeptVerif.Generated.PsiMod
 import PeptVerif.Model.Formula
-import PeptVerif.Model.Chem
+import PeptVerif.Lemmas.ElemTables
 /-!
 C03, exhaustive clause: every vocabulary entry's tabulated masses against the mass of its tabulated composition,
 computed with THIS work package's element table (`Model/Chem.lean`, recomputed from data/chem.txt).
@@ -27,7 +27,20 @@ def chnops (c : Comp) : Bool :=
 
 /-- `chem_mass(composition, monoisotopic)`; `none` = unknown element -/
 def massOf (mono : Bool) (c : Comp) : Option Rat :=
-  if c.all (fun p => (elemMass mono p.1).isSome) then some (chemMassL (fun e => (elemMass mono e).getD 0) c) else none
+  if c.all (fun p => (elemMassFast mono p.1).isSome) then some (chemMassL (fun e => (elemMassFast mono e).getD 0) c) else none
+
+/-- `massOf` is the library's `chem_mass` (the literal tables equal the recomputed ones: `Lemmas/ElemTables.lean`) -/
+theorem massOf_eq (mono : Bool) (c : Comp) (x : Rat) (h : massOf mono c = some x) :
+    c.all (fun p => (elemMass mono p.1).isSome) = true ∧ chemMassL (fun e => (elemMass mono e).getD 0) c = x := by
+  have hf : (fun e => (elemMass mono e).getD 0) = (fun e => (elemMassFast mono e).getD 0) := by
+    funext e; rw [elemMassFast_eq]
+  have hg : (fun (p : Chem.Elem × Rat) => (elemMass mono p.1).isSome) = (fun p => (elemMassFast mono p.1).isSome) := by
+    funext p; rw [elemMassFast_eq]
+  unfold massOf at h
+  rw [hf, hg]
+  split at h
+  · rename_i hall; exact ⟨hall, Option.some.inj h⟩
+  · cases h
 
 /-- |tabulated monoisotopic mass − mass of the composition| -/
 def monoGap (e : Entry) : Option Rat := do
@@ -50,5 +63,31 @@ def isChnops (e : Entry) : Bool := match entryComp e with | some c => chnops c |
 
 /-- ids of the entries failing a predicate -/
 def failing (p : Entry → Bool) (db : List Entry) : List Str := (db.filter (fun e => !p e)).map (·.id)
+
+
+/-- rows that carry both a monoisotopic mass and a composition -/
+def rows (db : List Entry) : List Entry := db.filter (fun e => e.mono.isSome && e.comp.isSome)
+
+/-- the PSI-MOD rows whose monoisotopic mass is not the mass of their composition within 1e-4 (charged species: one
+electron mass; iron-sulfur clusters, ...) -/
+def psimodMonoExcluded : List Str := [[48,48,48,52,57], [48,48,48,55,49], [48,48,48,55,53], [48,48,48,56,51], [48,48,49,52,53], [48,48,49,52,54], [48,48,49,52,55], [48,48,49,52,56], [48,48,49,52,57], [48,48,50,51,48], [48,48,50,51,49], [48,48,50,56,53], [48,48,50,56,57], [48,48,50,57,48], [48,48,50,57,49], [48,48,50,57,51], [48,48,50,57,52], [48,48,51,48,53], [48,48,51,51,49], [48,48,51,51,54], [48,48,51,53,51], [48,48,51,54,49], [48,48,51,54,50], [48,48,51,54,52], [48,48,55,49,49], [48,48,56,48,49], [48,48,56,53,52], [48,48,56,53,53], [48,48,56,53,54], [48,48,56,53,55], [48,48,56,54,52], [48,48,56,56,56], [48,48,56,56,57], [48,49,49,52,53], [48,49,51,56,50], [48,49,52,52,51], [48,49,52,54,52], [48,49,52,54,53], [48,49,53,56,56], [48,49,54,56,55], [48,49,54,57,56], [48,49,54,57,57], [48,49,55,48,48], [48,49,55,48,49], [48,49,55,48,50], [48,49,55,55,51], [48,49,55,56,52], [48,49,55,56,56], [48,49,55,56,57], [48,49,55,57,48], [48,49,55,57,49], [48,49,55,57,50], [48,49,55,57,55], [48,49,55,57,56], [48,49,56,48,49], [48,49,56,48,50], [48,49,57,48,54], [48,49,57,48,55], [48,49,57,51,51], [48,49,57,51,52], [48,49,57,55,52], [48,49,57,57,48], [48,49,57,57,49]]
+
+/-! #### kernel-evaluated table obligations (restated in `Props/C03.lean`; kept here so that the evaluation is cached
+independently of the rest of C03) -/
+
+theorem unimod_mono_consistent' : Gen.Unimod.entries.all monoOk = true := by decide +kernel
+
+theorem unimod_avg_excluded' :
+    failing avgOk Gen.Unimod.entries = [str% "291", str% "391", str% "415", str% "424", str% "444", str% "954"] := by
+  decide +kernel
+
+theorem unimod_avg_chnops_consistent' : Gen.Unimod.entries.all (fun e => avgOk e || !isChnops e) = true := by
+  decide +kernel
+
+theorem psimod_mono_excluded' : failing monoOk (rows Gen.PsiMod.entries) = psimodMonoExcluded := by decide +kernel
+
+theorem psimod_avg_counts' :
+    (rows Gen.PsiMod.entries).length = 1541 ∧ (failing avgOk (rows Gen.PsiMod.entries)).length = 1048 := by
+  constructor <;> decide +kernel
 
 end Pept.ModTables
